@@ -1074,7 +1074,7 @@ namespace bxdecay0 {
                           0.016370,
                           AcElectronBindingEnergyK,
                           0.0,
-                          AcElectronBindingEnergyL,
+                          0.015871, // L3 subshell: the mean L binding energy (18.264 keV) exceeds this transition's energy
                           5.06,
                           AcElectronBindingEnergyM,
                           2.68,
